@@ -154,6 +154,7 @@ def run(ctx, R, tier):
     load_append(F, R)
     rate_rule(F, R)
     chunk_lookup(F, R)
+    header_sized(F, R)
     # streaming yields the frames the decoder produced: silence only past the end of the audio (the C09 rule)
     from .c09 import frame_source, sib_data
     frame_source(F, R)
@@ -206,6 +207,36 @@ def load_append(F, R):
             % [nm for _, nm in extra], detail={'other_writers': [nm for _, nm in extra]}, where=b.file)
 
 
+def header_sized(F, R):
+    """'Malformed ... files produce an error value or the valid prefix, never a panic': the loaders never size an allocation
+    with a number read from the file's header (a track length, a channel count ...) - such a number is unvalidated, and
+    `Vec::reserve*` / `with_capacity` / `vec![x; n]` / `resize` abort or panic on an absurd one before a single packet is
+    decoded.  Sizes may be constants or come from a decoded buffer."""
+    from ..rules import constant_term
+    n = 0
+    bad = []
+    for fn in FNS:
+        for b in [F.body(fn)] + list(F.closures_of(fn)):
+            if b is None:
+                continue
+            n += 1
+            for bb, t in b.calls():
+                cp = callee_path(t) or ''
+                nm = cp.split('::')[-1]
+                if nm in ('with_capacity', 'reserve', 'reserve_exact', 'try_reserve', 'try_reserve_exact', 'from_elem', 'resize', 'resize_with') \
+                        and ('std::vec' in cp or 'alloc::vec' in cp or 'VecDeque' in cp or 'std::string' in cp):
+                    szi = 0 if nm == 'with_capacity' else 1
+                    if szi >= len(t['args']):
+                        continue
+                    d = describe(b, t['args'][szi], depth=10, at=bb)
+                    if constant_term(d) or 'AudioBuffer' in d or 'audio::Signal' in d or '::frames(' in d:
+                        continue
+                    bad.append('%s: %s(%s)' % (b.path.split('::')[-1], nm, d[:80]))
+    R.check(not bad, 'B.C18.load', 'header-sized', 'a loader sizes an allocation with a value that does not come from decoded audio: %s' % bad[:2],
+            detail={'bodies': n}, where=F.body(FNS[0]).file if F.body(FNS[0]) else None)
+    R.floor('B.C18.load.bodies', n, 5)
+
+
 def seek_landing(F, R):
     """`Decoder::seek` may land before the requested frame and returns the index it actually reached (symphonia seeks to
     packet boundaries).  Every caller in the streaming code must label the next decoded chunk with THAT index: the value
@@ -249,6 +280,24 @@ def seek_landing(F, R):
                     '(stores: %s): the following chunk is labelled with the wrong start frame' % (b.path, [d[:80] for _, d in stores]),
                     detail={'caller': b.path, 'recorded': 'result of Decoder::seek'}, where=b.where(sb))
     R.floor('B.C18.seek', n, 3)
+    # 'after any sequence of seeks': a seek request is carried out - seek_to_index has no success path that leaves the decoder
+    # where it was (a "same target as last time" shortcut drops the second of two seeks to one position)
+    DS0 = 'sound::streaming::sound::decode_scheduler::DecodeScheduler::<Error>'
+    si = F.body(DS0 + '::seek_to_index')
+    if R.check(si is not None, 'B.C18.seek', 'anchor:seek_to_index', 'DecodeScheduler::seek_to_index not found'):
+        v = F.inlined_view(DS0 + '::seek_to_index', depth=1, pred=lambda hp: hp.startswith(DS0 + '::')) or si
+        sk = [bb for bb, t in v.calls() if (callee_path(t) or '') == SEEK]
+        skipped = []
+        for p in explore(v):
+            if p.end != 'return' or (set(p.blocks) & set(sk)):
+                continue
+            r = str(p.ret)
+            if 'from_residual' in r or '::Err(' in r or 'Result::Err' in r:
+                continue
+            skipped.append(r)
+        R.check(bool(sk) and not skipped, 'B.C18.seek', 'seek_to_index:every-path',
+                'DecodeScheduler::seek_to_index can return success (%s) without having sought the decoder' % [r[:50] for r in skipped][:2],
+                detail='every success path calls Decoder::seek', where=si.file)
     # ... while the PLAYBACK position is the one that was asked for: the transport of a new streaming sound starts at the
     # requested start position (frames between the seek's landing point and the request are decoded and skipped), never at
     # the packet boundary the decoder happened to land on
